@@ -17,7 +17,7 @@ from checks.common.cases import run_case
 PROP = 'C13'
 LEVEL = 'exploration'
 SHARDS = {'quick': 4, 'thorough': 16}
-BUDGET_S = {'quick': 40, 'thorough': 400}
+BUDGET_S = {'quick': 150, 'thorough': 400}
 RULE = ('the family of 1120 signatures {0-3 positional-or-keyword params x default suffix} x {*args} x {0-2 '
         'keyword-only params x defaults} x {**kwargs} x {annotations} x {sync, async} - all of them in both tiers; '
         'per signature every call shape (thorough; a seeded sample of 60 in quick): 0..P+2 '
